@@ -92,6 +92,11 @@ func genOps(r *vf.Rand, kind zoo.Kind, n int) []op {
 				sh.ExtKind = 1
 			}
 			ssrc := uint32(1000 * (st + 1))
+			if r.Chance(0.06) {
+				// a packet of another SSRC through this stream's writer (an RTX or FEC packet of a
+				// member above): the caller's buffers are the caller's all the same
+				ssrc = uint32(r.Pick(0xF0000000|int(r.U16()), 1000*(2-st)))
+			}
 			h := gen.Header(r, sh, ssrc, 96, lseq[st], lts, twccID)
 			if st == 0 { // TWCC negotiated stream: carries the extension like a header-extension interceptor upstream would
 				twccSeq++
